@@ -256,6 +256,43 @@ def run(ck):
         if len(results) == 3 and not (results['XYXYMatch'] == results['XYXYMatch-permuted'] == results['match2ref']):
             ck.violation({'kind': 'set of matched sources depends on the row order or entry point', 'problem': slim(pr),
                           'results': {k2: sorted(v) for k2, v in results.items()}})
+    # one matcher object used for a HISTORY of calls (as the shared default matcher of align_wcs is): catalogs of the
+    # same lengths/names at the same pixel scale but with different offsets; every call must return the true pairs
+    hist_rng = ck.rng
+    nh = 0
+    for t in range(0, 5 * ck.n(16, 120), 5):          # regime A problems with use2dhist
+        pr = make_problem(hist_rng, t)
+        if pr is None or not pr['use2d'] or pr['regime'] != 'A':
+            continue
+        if max(abs(pr['u'][0]), abs(pr['u'][1])) < 1.0:
+            continue
+        nh += 1
+        pos_ref = {s: i for i, s in enumerate(pr['ref_ids'])}
+        truth = sorted((pos_ref[s], k) for k, s in enumerate(pr['im_ids']) if s in pos_ref)
+        rt = Table([[v[0] for v in pr['ref']], [v[1] for v in pr['ref']]], names=('TPx', 'TPy'))
+        imA = Table([[v[0] for v in pr['im']], [v[1] for v in pr['im']]], names=('TPx', 'TPy'))
+        # mirrored offset: shift the image by -2u (total offset -u, still inside the search radius)
+        imB = Table([[(v[0] - 2 * pr['u'][0]) * pr['p'] for v in pr['impx']],
+                     [(v[1] - 2 * pr['u'][1]) * pr['p'] for v in pr['impx']]], names=('TPx', 'TPy'))
+        m = XYXYMatch(searchrad=pr['sr'], separation=pr['sep'], tolerance=pr['tol'], use2dhist=True)
+        seq = []
+        for label, it in (('A', imA), ('B (offset mirrored)', imB), ('A again', imA), ('B again', imB)):
+            ck.search_evaluations += 1
+            try:
+                ri, ii = m(rt, it, tp_pscale=pr['p'], tp_units='u')
+                got = sorted(zip([int(v) for v in ri], [int(v) for v in ii]))
+            except Exception as e:   # noqa: BLE001
+                got = 'raised %s: %s' % (type(e).__name__, e)
+            seq.append((label, got == truth))
+            if got != truth:
+                ck.violation({'kind': 'matcher reused for a history of calls does not return the true pairs',
+                              'call_sequence_on_one_XYXYMatch_object': [s_[0] for s_ in seq],
+                              'per_call_ok': [s_[1] for s_ in seq], 'pscale': pr['p'], 'searchrad': pr['sr'],
+                              'tolerance': pr['tol'], 'separation': pr['sep'], 'offset_A_px': pr['u'],
+                              'ref': pr['ref'], 'im_A': pr['im'], 'expected_pairs': truth,
+                              'got': got if isinstance(got, str) else got[:50]})
+                break
+    ck.count('matcher_history_sessions', nh)
     bad = ck.coq_agree('match', IMPORTS, 'case11', 'agree11', cases, show='show11', shard=ck.n(30, 100))
     for i in bad:
         rp = dict(meta[i])
